@@ -537,3 +537,78 @@ Section Handler.
     exists rest, snd (decode_stream true stream) = TMore rest.
 
 End Handler.
+
+(* ------------------------------------------------------------------ executor-level transactions *)
+(* The MULTI / EXEC / DISCARD / WATCH / UNWATCH of CommandExecutor itself
+     src/redis/executor/mod.rs          execute(): the `if self.in_transaction` prologue
+     src/redis/executor/transaction_ops.rs  execute_multi / exec / discard / watch / unwatch
+   - the path of the simulator, the DST harnesses and every direct caller of execute(); the production
+   connection handler never sends these five commands to an executor.  One client: while a transaction
+   is open every command other than EXEC / DISCARD / MULTI / WATCH is queued, so "another client's
+   write" can only be a command executed between WATCH and MULTI.  WATCH stores the value found under
+   the key ([read_key], any type; an expired key reads as absent: set_time evicts before every command)
+   and EXEC compares stored values.  As repaired (C05-executor-rewatch): WATCH of a key that is already
+   watched keeps the FIRST snapshot.  Generic in the executor's ordinary commands [exec_plain]. *)
+Section ExecutorTx.
+  Variable St : Type.
+  Variable cmd : Type.
+  Variable V : Type.
+  Variable exec_plain : St -> cmd -> St * resp.
+  Variable kind : cmd -> ckind.
+  Variable read_key : St -> bytes -> V.
+  Variable veqb : V -> V -> bool.
+
+  Record xstate := mkX {
+    x_st : St;
+    x_in : bool;                      (* in_transaction *)
+    x_queue : list cmd;               (* queued_commands *)
+    x_watched : list (bytes * V)      (* watched_keys: at most one entry per key *)
+  }.
+  Definition x_init (s : St) : xstate := mkX s false [] [].
+
+  Fixpoint x_has (k : bytes) (w : list (bytes * V)) : bool :=
+    match w with [] => false | (k', _) :: t => bytes_eqb k k' || x_has k t end.
+  (* execute_watch *)
+  Fixpoint x_watch (s : St) (w : list (bytes * V)) (ks : list bytes) : list (bytes * V) :=
+    match ks with
+    | [] => w
+    | k :: t => x_watch s (if x_has k w then w else w ++ [(k, read_key s k)]) t
+    end.
+  (* a queued command when EXEC replays it: the transaction is closed by then; UNWATCH finds nothing *)
+  Definition x_exec1 (s : St) (c : cmd) : St * resp :=
+    match kind c with
+    | KUnwatch => (s, RSimple (str "OK"))
+    | _ => exec_plain s c
+    end.
+  Fixpoint x_run (s : St) (q : list cmd) : St * list resp :=
+    match q with
+    | [] => (s, [])
+    | c :: t => let '(s1, r) := x_exec1 s c in let '(s2, l) := x_run s1 t in (s2, r :: l)
+    end.
+  Definition x_violated (s : St) (w : list (bytes * V)) : bool :=
+    existsb (fun p => negb (veqb (read_key s (fst p)) (snd p))) w.
+
+  Definition x_step (x : xstate) (c : cmd) : xstate * resp :=
+    if x_in x then
+      match kind c with
+      | KExec =>
+        if x_violated (x_st x) (x_watched x) then (mkX (x_st x) false [] [], RNilBulk)
+        else let '(s', rs) := x_run (x_st x) (x_queue x) in (mkX s' false [] [], RArr rs)
+      | KDiscard => (mkX (x_st x) false [] [], RSimple (str "OK"))
+      | KMulti => (x, RError (str "ERR MULTI calls can not be nested"))
+      | KWatch _ => (x, RError (str "ERR WATCH inside MULTI is not allowed"))
+      | _ => (mkX (x_st x) true (x_queue x ++ [c]) (x_watched x), RSimple (str "QUEUED"))
+      end
+    else
+      match kind c with
+      | KMulti => (mkX (x_st x) true [] (x_watched x), RSimple (str "OK"))
+      | KExec => (x, RError (str "ERR EXEC without MULTI"))
+      | KDiscard => (x, RError (str "ERR DISCARD without MULTI"))
+      | KWatch ks => (mkX (x_st x) false (x_queue x) (x_watch (x_st x) (x_watched x) ks), RSimple (str "OK"))
+      | KUnwatch => (mkX (x_st x) false (x_queue x) [], RSimple (str "OK"))
+      | _ => let '(s', r) := exec_plain (x_st x) c in (mkX s' false (x_queue x) (x_watched x), r)
+      end.
+
+  Definition x_steps (x : xstate) (cs : list cmd) : xstate :=
+    fold_left (fun x c => fst (x_step x c)) cs x.
+End ExecutorTx.
